@@ -214,6 +214,8 @@ func runC01(c *Ctx, r *Report, tier string) {
 					}
 				}
 			}
+			// the two sides count the same things (options and groups): read at different times they render alike
+			r.Check(c.term(bo.X) == c.term(bo.Y), "UNTOUCHED", sn, "the count taken before the scan is the count compared after it", c.ipos(iff), "both sides are len(options) + len(groups)", "compares "+trunc(c.term(bo.X), 60)+" with "+trunc(c.term(bo.Y), 60)+": a declaration of the kind missing on one side makes an untagged struct pointer look used (or unused)")
 			r.Check(nBefore == 1 && nAfter == 1 && okIn, "UNTOUCHED", sn, "declaration count compared with its value before this field's scan", c.ipos(iff), "one side is read after the nested scanStruct, the other before it in the same iteration of the field loop", fmt.Sprintf("sides read before the nested scan=%d, after=%d, the earlier one taken inside the field loop=%v: an untagged nil struct pointer can stay allocated because of declarations made by other fields", nBefore, nAfter, okIn))
 		}
 		if nCmp == 0 {
